@@ -186,7 +186,7 @@ pub fn hash_key(key: &[u8], salt: &Salt, uniform: bool, db_version: u32) -> Key 
 			#[cfg(any(test, feature = "instrumentation"))]
 			// Used for forcing collisions in tests.
 			if salt == &Salt::default() {
-				k.copy_from_slice(&key);
+				k.copy_from_slice(&key[0..32]);
 				return k
 			}
 			// siphash 1-3 first 128 bits of the key
@@ -199,7 +199,7 @@ pub fn hash_key(key: &[u8], salt: &Salt, uniform: bool, db_version: u32) -> Key 
 			let hash = hasher.finish128();
 			k[0..8].copy_from_slice(&hash.h1.to_le_bytes());
 			k[8..16].copy_from_slice(&hash.h2.to_le_bytes());
-			k[16..].copy_from_slice(&key[16..]);
+			k[16..].copy_from_slice(&key[16..32]);
 		}
 	} else {
 		let mut ctx = Blake2bMac::<U32>::new_with_salt_and_personal(salt, &[], &[])
